@@ -37,7 +37,7 @@ ASSUMPTIONS = [
   'exceptions are injected at callback boundaries of module bodies, not between two bytecodes of flax itself',
   'all arithmetic is small integers in float32, so byte comparison is exact however XLA fuses',
 ]
-PROBES = ['route_twice', 'late_collection_created_in_second_call', 'fault_in_setup_or_body', 'write_outside_filter_raises', 'write_inside_filter_ok', 'repeat_checked', 'memo_hit_after_fault', 'frozen_returns', 'bind_unbind', 'core_api', 'observe_capture', 'observe_strip_sow', 'observe_no_perturb_col', 'collections_rule_checked', 'inner_module_attr', 'gc_event', 'context_intercept', 'context_named_call_on', 'context_named_call_off', 'context_tabulate', 'concurrent_interleaved', 'inner_from_bound_model', 'inner_below_unbound_container', 'route_nn_init', 'route_nn_apply', 'route_method_str', 'route_method_fn', 'filter_set_reused']
+PROBES = ['numpy_variables', 'route_twice', 'late_collection_created_in_second_call', 'fault_in_setup_or_body', 'write_outside_filter_raises', 'write_inside_filter_ok', 'repeat_checked', 'memo_hit_after_fault', 'frozen_returns', 'bind_unbind', 'core_api', 'observe_capture', 'observe_strip_sow', 'observe_no_perturb_col', 'collections_rule_checked', 'inner_module_attr', 'gc_event', 'context_intercept', 'context_named_call_on', 'context_named_call_off', 'context_tabulate', 'concurrent_interleaved', 'inner_from_bound_model', 'inner_below_unbound_container', 'route_nn_init', 'route_nn_apply', 'route_method_str', 'route_method_fn', 'filter_set_reused']
 
 errors = None
 
@@ -79,6 +79,9 @@ def generate(rs, tier):
   progs = []
   for _ in range(nprog):
     sp = P.gen_module(g)
+    if sp['style'] == 'compact' and g.random() < 0.15:
+      # a library layer (nn.Conv with a numpy mask) among the generated instructions
+      sp['body'].insert(g.randrange(len(sp['body']) + 1), dict(i='libconv', name='conv_lib'))
     inner = None
     inner_from = None
     if g.random() < 0.28:
@@ -90,7 +93,8 @@ def generate(rs, tier):
     progs.append(dict(spec=sp, inner=inner, inner_from=inner_from, batch=g.choice([1, 2, 3])))
   ops = []
   for i in range(nprog):
-    ops.append(dict(op='init', prog=i, seed=g.randrange(5), batch=g.choice([1, 2, 3]), fill=g.randrange(3), with_output=g.random() < 0.5))
+    # np_copy: the caller also keeps the initialised variables as host-side numpy arrays (a restored checkpoint) and applies those
+    ops.append(dict(op='init', prog=i, seed=g.randrange(5), batch=g.choice([1, 2, 3]), fill=g.randrange(3), with_output=g.random() < 0.5, np_copy=g.random() < 0.35))
   for _ in range(g.randrange(2, 11)):
     r = g.random()
     base = dict(prog=g.randrange(nprog), vars=g.randrange(8), seed=g.randrange(5), batch=g.choice([1, 2, 3]), fill=g.randrange(3))
@@ -388,6 +392,9 @@ class LWorld:
         if out3[0] != 'ok' or val(out3[1][1]) != val(v):
           raise Violation('not-repeatable', f'op {oi}: init after an aborted init differs from the first init')
       self.vars[pi].append(v)
+      if op.get('np_copy'):
+        self.vars[pi].append(jax.tree_util.tree_map(lambda a: np.array(a), v))
+        self.res.probe('numpy_variables')
       self.log.add(oi, 'init', sorted(v.keys()))
     elif k == 'apply':
       j, v = self.pick_vars(pi, op['vars'])
